@@ -332,7 +332,13 @@ pub fn contract_method_texts(p: &Program) -> Vec<String> {
         }
         let mut s = String::new();
         let custom_err = m.err == ErrTy::Custom && p.contract.error == ErrTy::Custom;
-        let e = if custom_err { "CErr" } else { "StdError" };
+        // a query handler's error type may be generic over a contract parameter
+        let gen_err = match p.contract.query_err_param {
+            Some(i) if kind == Kind::Query && !custom_err && i < params.len() => Some(format!("GenErr<{}>", params[i])),
+            _ => None,
+        };
+        let e = if custom_err { "CErr".to_string() } else { gen_err.clone().unwrap_or_else(|| "StdError".to_string()) };
+        let e = e.as_str();
         let sg = sig(m, kind, &params, &[], c, q, e, true);
         let id = format!("ctr::{}::{}", kind.attr(), m.name);
         let resp_conc = if resp_twin(m) { format!("{}Twin", resp_rust(m.resp, &params)) } else { resp_rust(m.resp, &params) };
@@ -347,7 +353,8 @@ pub fn contract_method_texts(p: &Program) -> Vec<String> {
             writeln!(s, "    {}", sg.attr).unwrap();
         }
         writeln!(s, "    fn {}({}) -> {} {{", m.name, sg.params, sg.ret).unwrap();
-        writeln!(s, "        {}", echo_body(p, m, kind, &id, c, q, custom_err, &resp_conc)).unwrap();
+        let body = echo_body(p, m, kind, &id, c, q, custom_err, &resp_conc);
+        writeln!(s, "        {body}{}", if gen_err.is_some() { ".map_err(GenErr::from)" } else { "" }).unwrap();
         writeln!(s, "    }}").unwrap();
         out.push(s);
     }
@@ -962,10 +969,12 @@ fn render_mt_glue(p: &Program, o: &RenderOpts, s: &mut String) {
     writeln!(s, "                    let vp_code_ = sv::mt::CodeId::<CtrC, {app}>::store_code(vp_app_);").unwrap();
     writeln!(s, "                    let vp_id_ = vp_code_.code_id();").unwrap();
     writeln!(s, "                    let mut vp_ip_ = vp_code_.instantiate({});", vals.join(", ")).unwrap();
+    writeln!(s, "                    for vp_pa_ in &vp_o_.pre_admin {{ vp_ip_ = vp_ip_.with_admin(vp_pa_.as_deref()); }}").unwrap();
+    writeln!(s, "                    for vp_ps_ in &vp_o_.pre_salt {{ vp_ip_ = vp_ip_.with_salt(vp_ps_.as_deref()); }}").unwrap();
     writeln!(s, "                    if let Some(l) = &vp_o_.label {{ vp_ip_ = vp_ip_.with_label(l); }}").unwrap();
-    writeln!(s, "                    if let Some(a) = &vp_o_.admin {{ vp_ip_ = vp_ip_.with_admin(a.as_str()); }}").unwrap();
+    writeln!(s, "                    if let Some(a) = &vp_o_.admin {{ vp_ip_ = vp_ip_.with_admin(a.as_str()); }} else if !vp_o_.pre_admin.is_empty() {{ vp_ip_ = vp_ip_.with_admin(None); }}").unwrap();
     writeln!(s, "                    if let Some(f) = &vp_o_.funds {{ vp_ip_ = vp_ip_.with_funds(f); }}").unwrap();
-    writeln!(s, "                    if let Some(x) = &vp_o_.salt {{ vp_ip_ = vp_ip_.with_salt(x.as_slice()); }}").unwrap();
+    writeln!(s, "                    if let Some(x) = &vp_o_.salt {{ vp_ip_ = vp_ip_.with_salt(x.as_slice()); }} else if !vp_o_.pre_salt.is_empty() {{ vp_ip_ = vp_ip_.with_salt(None); }}").unwrap();
     writeln!(s, "                    vp_ip_.call(vp_sender_).map(|p| (vp_id_, p.contract_addr)).map_err(|e| svrt::ErrView::view(&e))").unwrap();
     writeln!(s, "                }}),").unwrap();
     writeln!(s, "                exec: Default::default(), query: Default::default(), sudo: Default::default(), migrate: None,").unwrap();
